@@ -54,6 +54,8 @@ def make_mass(rnd, M):
             # a whole-number, symmetric positive definite matrix: B B^T + diagonal with small integer entries
             b = numpy.array([[rnd.randint(-2, 2) for _ in range(d)] for _ in range(d)])
             mat = (b @ b.T + numpy.diag([rnd.randint(1, 4) for _ in range(d)])).astype(float)
+        if enc in ("float64", "list", "fortran"):
+            mat = mat * rnd.choice([1.0, 1.0, 2.0 ** -40, 2.0 ** 30])        # a metric in other units (all entries tiny, or huge)
         arg = {"float64": mat.copy(), "list": mat.tolist(), "int": mat.astype(int), "float32": mat.astype(numpy.float32),
                "int_list": [[int(v) for v in row] for row in mat.tolist()], "fortran": numpy.asfortranarray(mat.copy())}[enc]
         if enc == "float32":
